@@ -7,5 +7,5 @@ CONSTANTS
   MaxIds = 12
 INIT Init
 NEXT Next
-INVARIANTS ReleasedAtMostOnce LiveNotReleased DeadReleased OnePerKey SelectLive
+INVARIANTS ReleasedAtMostOnce LiveNotReleased DeadReleased OnePerKey SelectLive SelectPositive
 CHECK_DEADLOCK FALSE
